@@ -243,7 +243,7 @@ func (s *session) openPool() error {
 }
 
 func (s *session) observe(keys []string, maxLen int) (*c19.Obs, error) {
-	o := s.db.Observe(s.db.Center, keys, maxLen, true)
+	o := s.db.ObserveAll(s.db.Center, keys, maxLen, true)
 
 	for _, it := range s.items {
 		m, err := it.Read(s.pool)
@@ -319,8 +319,16 @@ func (r *runner) steps(c *c19.Case, s *session, gen *c19.Gen, res *Result) {
 		res.Steps++
 
 		switch a.Name {
+		case "Read":
+			// ReadAll of the spec: every read is performed (what falls through to the permanent store fills its
+			// state cache); compared with the model below when the case says so
+			if i >= len(c.Reads) || c.Reads[i] == nil {
+				_ = s.db.Observe(s.db.Center, r.keys, r.maxLen, false)
+
+				continue
+			}
 		case "Write":
-			b, err := gen.NewBlock(a.H, a.G, a.St, a.Sh, 0)
+			b, err := c19.NewBlockOf(gen, &a, c.WriteCache)
 			if err != nil {
 				res.Fatal = fmt.Sprintf("step %d: generate block: %+v", i, err)
 
@@ -402,7 +410,7 @@ func (r *runner) steps(c *c19.Case, s *session, gen *c19.Gen, res *Result) {
 			continue
 		}
 
-		o := s.db.Observe(s.db.Center, r.keys, r.maxLen, false)
+		o := s.db.ObserveAll(s.db.Center, r.keys, r.maxLen, false)
 
 		for _, d := range c19.Compare(o, c.Reads[i], r.keys) {
 			d.Step = i
